@@ -86,7 +86,7 @@ def small_buffers(c, tier, strict_only=False):
     out = os.path.join(V.workdir(c.pid), "molbuf.csv")
     if os.path.exists(out):
         os.remove(out)
-    res = V.tlc(c.pid, "MC_MolBuf", cfg, workers=WORKERS, timeout=1500, xmx="10g", env={"MOLBUF_OUT": out})
+    res = V.tlc(c.pid, "MC_MolBuf", cfg, workers=WORKERS, timeout=2400, xmx="10g", env={"MOLBUF_OUT": out})
     if res["violated"]:
         c.violation("model/" + res["violated"], "Molecule.tla violates its own law %s (%s)" % (res["violated"], cfg),
                     {"kind": "model", "cfg": cfg, "tlc_tail": res["out"][-3000:]})
@@ -221,7 +221,7 @@ def run(tier):
     c.set("small_buffers", sb)
     c.add("traces_validated_against_impl", sb["buffers"])
     # (a2)
-    recs, res = enumerate_mutations(c, "MC_C16Mut_quick.cfg" if tier == "quick" else "MC_C16Mut_all.cfg", 900 if tier == "quick" else 1700)
+    recs, res = enumerate_mutations(c, "MC_C16Mut_quick.cfg" if tier == "quick" else "MC_C16Mut_all.cfg", 2400)
     if len(recs) < 3000:
         raise V.ToolError("too few mutations enumerated: %d" % len(recs))
     ms = replay_mutations(c, recs)
